@@ -48,7 +48,10 @@ def harness():
 def judge_tree(c, ctx, case):
     from multidecoder.query import squash_replace
 
-    root = treegen.build(c)
+    # the statement is about values and spans only: it holds whatever the children's parent references say
+    linkage = case.get("linkage", "full")
+    root = treegen.build(c, linkage=linkage)
+    ctx.count("tree_linkage:" + linkage)
     ctx.evaluated()
 
     def report(key, msg):
@@ -157,7 +160,7 @@ def run_shard(spec, ctx):
                 c = treegen.identity_tree(r)
             else:
                 c = treegen.chain(r, r.choice([5, 20, 60] if ctx.tier == "quick" else [20, 60, 150, 300]))
-            case = {"kind": "tree", "tree": enc(c)}
+            case = {"kind": "tree", "tree": enc(c), "linkage": r.choice(["full", "full", "full", "none", "foreign"])}
             if not ctx.begin(case):
                 continue
             judge_tree(c, ctx, case)
